@@ -108,6 +108,8 @@ type tgtConn struct {
 	handlerErr  error
 	lastAckAt   time.Duration
 	everAcked   bool
+	diedAt      int // decision at which the stream was first seen dead (0 = alive)
+	endedAt     int // decision at which the proxy's handler for the stream was seen to have returned
 }
 
 type shardModel struct {
@@ -156,6 +158,9 @@ type RouteWorld struct {
 	deliveries map[taskKey][]delivery
 	delivOrder int
 	toProxy    map[taskKey]bool // source task read by the proxy (any incarnation)
+	readAt     map[taskKey]int  // decision at which the proxy last read the task
+	readInc    map[taskKey]int  // source stream incarnation over which the proxy last read it
+	readCount  map[taskKey]int  // number of distinct source incarnations over which the proxy read it
 
 	faultsLeft int
 	faults     map[string]int
@@ -228,7 +233,7 @@ func (w *RouteWorld) shard(id ShardID) *shardModel {
 // routing mode (cluster_connection.go: getRoutingParameters).
 func NewRouteWorld(s *simrt.Sim, prof RouteProfile) *RouteWorld {
 	w := &RouteWorld{s: s, prof: prof, confirmed: map[taskKey]bool{}, deliveries: map[taskKey][]delivery{},
-		toProxy: map[taskKey]bool{}, faults: map[string]int{}}
+		toProxy: map[taskKey]bool{}, readAt: map[taskKey]int{}, readInc: map[taskKey]int{}, readCount: map[taskKey]int{}, faults: map[string]int{}}
 	w.cfg = drawRouteConfig(s, prof)
 	s.SetPKeep(w.cfg.PKeep)
 	w.faultsLeft = w.cfg.FaultBudget
@@ -274,7 +279,11 @@ func NewRouteWorld(s *simrt.Sim, prof RouteProfile) *RouteWorld {
 }
 
 func (w *RouteWorld) violate(prop, clause, format string, args ...any) {
-	v := Violation{Property: prop, Clause: clause, Detail: fmt.Sprintf(format, args...), Decision: w.s.Stats.Decisions, VTimeMs: w.s.Now().Milliseconds()}
+	w.violateSig(prop, clause, "", format, args...)
+}
+
+func (w *RouteWorld) violateSig(prop, clause, sig, format string, args ...any) {
+	v := Violation{Property: prop, Clause: clause, Sig: sig, Detail: fmt.Sprintf(format, args...), Decision: w.s.Stats.Decisions, VTimeMs: w.s.Now().Milliseconds()}
 	w.s.Log("VIOLATION %s/%s: %s", prop, clause, v.Detail)
 	if len(w.viol) < 20 {
 		w.viol = append(w.viol, v)
@@ -329,7 +338,13 @@ func (w *RouteWorld) openSource(cl int32, ctx context.Context) (adminservice.Adm
 			c.highDelivered = msgs.ExclusiveHighWatermark
 			c.anyDelivered = true
 			for _, t := range msgs.ReplicationTasks {
-				w.toProxy[taskKey{sh.sid(), t.SourceTaskId}] = true
+				k := taskKey{sh.sid(), t.SourceTaskId}
+				w.toProxy[k] = true
+				w.readAt[k] = w.s.Stats.Decisions
+				if w.readInc[k] != c.inc {
+					w.readCount[k]++
+				}
+				w.readInc[k] = c.inc
 			}
 		}
 	}
@@ -464,10 +479,64 @@ func (w *RouteWorld) onAckToSource(c *srcConn, r *simio.Req) {
 			w.violate("C01", "early-ack", "source %s acked %d but task %d is unconfirmed: %s", c.sh.name(), a, t.id, where)
 		}
 		if w.anyFault {
-			w.violate("C04", "ack-of-unconfirmed", "source %s acked %d but task %d was never confirmed by any target stream: %s", c.sh.name(), a, t.id, where)
+			w.violateSig("C04", "ack-of-unconfirmed", w.c04Sig(c, t, k), "source %s acked %d but task %d was never confirmed by any target stream: %s", c.sh.name(), a, t.id, where)
 		}
 		break
 	}
+}
+
+// c04Sig classifies an acknowledged-but-unconfirmed task by what happened to it, from
+// externally observable facts only. "in-flight-state-died-with-target-stream": the proxy
+// read the task on the very source stream incarnation that is now being acked, and the
+// task's in-flight state (queued for, or sent on, a stream of its owner target shard)
+// died with a target stream incarnation that ended after the proxy had read the task.
+func (w *RouteWorld) c04Sig(c *srcConn, t *srcTask, k taskKey) string {
+	if !w.toProxy[k] {
+		return ""
+	}
+	owner := servercommon.WorkflowIDToHistoryShard(t.ns, t.wf, int32(w.count(other(k.src.ClusterID))))
+	osh := w.shard(sid(other(k.src.ClusterID), owner))
+	if osh == nil {
+		return ""
+	}
+	ds := w.deliveries[k]
+	// (b) the source stream was restarted and resent the task; on a still-live stream of the
+	// owner target shard a task of the same source with a HIGHER original id (routed by the
+	// previous incarnation) sits at a lower proxy id than every live copy of this task.
+	if w.readCount[k] >= 2 {
+		for _, tc := range osh.allTgt {
+			if tc.diedAt != 0 {
+				continue
+			}
+			minLive := int64(1) << 62
+			for _, d := range ds {
+				if d.conn == tc && d.proxyID < minLive {
+					minLive = d.proxyID
+				}
+			}
+			for _, tt := range tc.tracked {
+				if tt.key.src == k.src && tt.key.id > k.id && tt.proxyID < minLive {
+					return "resent-behind-stale-entry-after-source-restart"
+				}
+			}
+		}
+	}
+	// (a) in-flight state died with a target stream
+	if w.readInc[k] != c.inc {
+		return ""
+	}
+	for _, d := range ds {
+		if d.conn.diedAt == 0 {
+			return "" // still pending on a live target stream: nothing was lost, the ack is simply early
+		}
+	}
+	for _, tc := range osh.allTgt {
+		// the proxy-side teardown of that incarnation finished (or is still running) after the read
+		if tc.diedAt != 0 && (tc.endedAt == 0 || tc.endedAt >= w.readAt[k]) {
+			return "in-flight-state-died-with-target-stream"
+		}
+	}
+	return ""
 }
 
 func (w *RouteWorld) srcReadAck(c *srcConn) {
@@ -673,6 +742,15 @@ func (w *RouteWorld) Actions() []simrt.Action {
 		}
 		for _, tc := range sh.allTgt {
 			tc := tc
+			if tc.diedAt == 0 && (tc.st.Dead() || tc.st.ClientClosedSend || tc.handlerDone) {
+				tc.diedAt = w.s.Stats.Decisions
+				if tc.diedAt == 0 {
+					tc.diedAt = 1
+				}
+			}
+			if tc.endedAt == 0 && tc.handlerDone {
+				tc.endedAt = max(1, w.s.Stats.Decisions)
+			}
 			if tc.st.LenS2C() > 0 && !tc.st.Dead() {
 				add("tgt-recv:"+tc.st.Name, 8, false, func() { w.tgtRecv(tc) })
 			}
